@@ -707,6 +707,8 @@ func coqCase(res result) string {
 
 type meta struct {
 	Shards     []string       `json:"shards"`
+	RunShards  []string       `json:"run_shards"`
+	RunCases   int            `json:"run_cases"`
 	ShardSize  int            `json:"shard_size"`
 	Cases      int            `json:"cases"`
 	Events     int            `json:"events"`
@@ -739,6 +741,7 @@ func main() {
 	r := rng.New(*seed)
 	e := startEnv()
 	var scs []scenario
+	var rscs []fwdRunScenario
 	if *replay != "" {
 		raw, err := os.ReadFile(*replay)
 		if err != nil {
@@ -746,15 +749,25 @@ func main() {
 			os.Exit(2)
 		}
 		var rp struct {
-			Scenario scenario `json:"scenario"`
+			Kind     string          `json:"kind"`
+			Scenario json.RawMessage `json:"scenario"`
 		}
 		if err := json.Unmarshal(raw, &rp); err != nil {
 			fmt.Fprintln(os.Stderr, err)
 			os.Exit(2)
 		}
-		scs = []scenario{rp.Scenario}
+		if rp.Kind == "run" {
+			var rs fwdRunScenario
+			json.Unmarshal(rp.Scenario, &rs) //nolint:errcheck
+			rscs = []fwdRunScenario{rs}
+		} else {
+			var sc scenario
+			json.Unmarshal(rp.Scenario, &sc) //nolint:errcheck
+			scs = []scenario{sc}
+		}
 	} else {
 		scs = genScenarios(*tier, r)
+		rscs = genRunScenarios(*tier)
 	}
 	results := make([]result, len(scs))
 	sem := make(chan struct{}, *par)
@@ -766,6 +779,14 @@ func main() {
 			defer wg.Done()
 			defer func() { <-sem }()
 			results[i] = runScenario(scs[i], e)
+		}(i)
+	}
+	rres := make([]fwdRunResult, len(rscs))
+	for i := range rscs {
+		wg.Add(1)
+		go func(i int) {
+			defer wg.Done()
+			rres[i] = runRun(rscs[i])
 		}(i)
 	}
 	wg.Wait()
@@ -827,6 +848,29 @@ func main() {
 		sb.WriteString("Definition P := Eval vm_compute in (bad scase_prop_ok cases).\nPrint P.\n")
 		os.WriteFile(filepath.Join(*out, name), []byte(sb.String()), 0o644) //nolint:errcheck
 		m.Shards = append(m.Shards, name)
+	}
+	if len(rres) > 0 {
+		rj, _ := os.Create(filepath.Join(*out, "rcases.jsonl"))
+		var rc []string
+		for _, rr := range rres {
+			b, _ := json.Marshal(rr)
+			rj.Write(append(b, '\n')) //nolint:errcheck
+			if rr.Err != "" {
+				m.Errors = append(m.Errors, rr.Sc.Name+": "+rr.Err)
+			}
+			rc = append(rc, coqRun(rr, 150))
+		}
+		rj.Close()
+		var sb strings.Builder
+		sb.WriteString("From G11 Require Import ShutdownCheck.\nOpen Scope Z_scope.\n")
+		sb.WriteString("Definition rcases : list rcase :=\n [" + strings.Join(rc, ";\n  ") + "].\n")
+		sb.WriteString("Open Scope N_scope.\n")
+		sb.WriteString("Definition M := Eval vm_compute in (@nil N).\nPrint M.\n")
+		sb.WriteString("Definition P := Eval vm_compute in (bad rcase_prop_ok rcases).\nPrint P.\n")
+		os.WriteFile(filepath.Join(*out, "c11run_000.v"), []byte(sb.String()), 0o644) //nolint:errcheck
+		m.RunShards = append(m.RunShards, "c11run_000.v")
+		m.RunCases = len(rres)
+		m.Samples = append(m.Samples, rres[len(rres)/2])
 	}
 	for i := 0; i < len(results) && i < 2; i++ {
 		res := results[(i*len(results))/2+len(results)/3]
